@@ -109,3 +109,41 @@ class LibMixin:
         return r
 
     lib_path_filepath_Join = lib_path_Join
+
+    # ---- js interop used by the math natives: Math.<f>(x).Float() for the functions ECMA-262 defines exactly
+    def lib_js_Object_Call(self, st, recv, argv, e):
+        name = argv[0]
+        if not isinstance(name, StrV) or name.lit is None:
+            raise Unsupported('js.Object.Call with a non-literal method name')
+        rest = self.slice_elems(st, argv[1]) or []
+        args = e.get('Args')[1:]
+        vals = [self.ev(st, a) for a in args]
+        n = name.lit.decode()
+        if n in ('floor', 'ceil', 'trunc', 'sqrt', 'abs') and len(vals) == 1 and z3.is_fp(vals[0]):
+            self.assumed.add('Math.%s is the exact IEEE-754 operation (ECMA-262)' % n)
+            x = vals[0]
+            r = {'floor': lambda: z3.fpRoundToIntegral(z3.RTN(), x), 'ceil': lambda: z3.fpRoundToIntegral(z3.RTP(), x),
+                 'trunc': lambda: z3.fpRoundToIntegral(z3.RTZ(), x), 'sqrt': lambda: z3.fpSqrt(z3.RNE(), x), 'abs': lambda: z3.fpAbs(x)}[n]()
+            return JSResult(r)
+        self.assumed.add('Math.%s is implementation-approximated (ECMA-262 does not fix its bits): opaque' % n)
+        f = z3.Function('Math_' + n, *([F64] * len(vals) + [F64])) if all(z3.is_fp(v) for v in vals) else None
+        if f is None:
+            raise Unsupported('Math.%s with non-float arguments' % n)
+        return JSResult(f(*vals))
+
+    def lib_js_Object_Get(self, st, recv, argv, e):
+        name = argv[0]
+        if isinstance(name, StrV) and name.lit == b'$NaN':
+            return JSResult(z3.fpNaN(F64))           # prelude: var $NaN = NaN
+        return JSResult(None)
+
+    def lib_js_Object_Float(self, st, recv, argv, e):
+        v = recv[0] if recv else None
+        if isinstance(v, JSResult) and v.val is not None:
+            return v.val
+        raise Unsupported('js.Object.Float on an unknown object')
+
+class JSResult:
+    """a *js.Object wrapping a JavaScript number"""
+    def __init__(self, val):
+        self.val = val
